@@ -254,6 +254,10 @@ class ElementParser:
                 children = self.queue[pos:]
                 del self.queue[pos:]
                 break
+            if self.namespaces:
+                # an element that was left open ends here as well,
+                # and its namespace declarations with it
+                self.namespaces.pop()
         else:
             raise ParseError("Unexpected end tag.", token)
 
